@@ -431,6 +431,9 @@ func replCase(r *vk.Run, replica *store.ImmuStore, ctx context.Context, in []byt
 
 // Replay re-runs one recorded case on the implementation.
 func Replay(r *vk.Run, c map[string]any) error {
+	if done, err := replayWire(r, c); done {
+		return err
+	}
 	in, err := hex.DecodeString(c["in"].(string))
 	if err != nil {
 		return err
